@@ -45,6 +45,7 @@ fn python_cross_check(rep: &Report, sids: &[&str], keys: &[Vec<u8>], seed: u64) 
 import sys, json, hashlib
 bad = 0
 n = 0
+out = []
 for line in sys.stdin:
     j = json.loads(line)
     d = hashlib.sha1(j["sid"].encode() + bytes.fromhex(j["secret"]) + bytes.fromhex(j["key"])).digest()
@@ -53,7 +54,12 @@ for line in sys.stdin:
     n += 1
     if want != j["got"]:
         bad += 1
-        print("MISMATCH", json.dumps({"sid": j["sid"], "secret": j["secret"], "key": j["key"], "python": want, "passage": j["got"]}))
+        # reported after the whole input has been read: printing here could fill the pipe while the harness
+        # is still writing inputs, and both sides would wait for each other
+        if bad <= 20:
+            out.append("MISMATCH " + json.dumps({"sid": j["sid"], "secret": j["secret"], "key": j["key"], "python": want, "passage": j["got"]}))
+for l in out:
+    print(l)
 print("DONE", n, bad)
 "#;
     let Ok(mut child) = std::process::Command::new("python3").args(["-c", script]).stdin(std::process::Stdio::piped()).stdout(std::process::Stdio::piped()).stderr(std::process::Stdio::null()).spawn() else {
@@ -85,6 +91,131 @@ print("DONE", n, bad)
         rep.assume("the python3 hashlib cross-check produced no result and was skipped");
     }
     n
+}
+
+/// SHA-1 of a 16-byte message (one block), as five big-endian words: the search loop of `find_shapes`.
+fn sha1_16(m: [u32; 4]) -> [u32; 5] {
+    let mut w = [0u32; 80];
+    w[..4].copy_from_slice(&m);
+    w[4] = 0x8000_0000;
+    w[15] = 128;
+    for i in 16..80 {
+        w[i] = (w[i - 3] ^ w[i - 8] ^ w[i - 14] ^ w[i - 16]).rotate_left(1);
+    }
+    let h: [u32; 5] = [0x67452301, 0xEFCDAB89, 0x98BADCFE, 0x10325476, 0xC3D2E1F0];
+    let (mut a, mut b, mut c, mut d, mut e) = (h[0], h[1], h[2], h[3], h[4]);
+    for (i, wi) in w.iter().enumerate() {
+        let (f, k) = match i {
+            0..=19 => ((b & c) | ((!b) & d), 0x5A827999u32),
+            20..=39 => (b ^ c ^ d, 0x6ED9EBA1),
+            40..=59 => ((b & c) | (b & d) | (c & d), 0x8F1BBCDC),
+            _ => (b ^ c ^ d, 0xCA62C1D6),
+        };
+        let t = a.rotate_left(5).wrapping_add(f).wrapping_add(e).wrapping_add(k).wrapping_add(*wi);
+        e = d;
+        d = c;
+        c = b.rotate_left(30);
+        b = a;
+        a = t;
+    }
+    [h[0].wrapping_add(a), h[1].wrapping_add(b), h[2].wrapping_add(c), h[3].wrapping_add(d), h[4].wrapping_add(e)]
+}
+
+/// The rare digest shapes (each has probability about 2^-32 or 2^-20 per input) in which a hand-made
+/// signed-hex conversion typically goes wrong: a whole 32-bit word of the digest zero or all ones (an
+/// implementation that splits the 160 bits into machine words must pad inner words and must not pad the
+/// leading one; a two's-complement negation must carry across an all-zero word), and 5 to 7 leading zero
+/// or F nibbles.
+pub fn shape_classes(d: &[u32; 5]) -> Vec<String> {
+    let mut out = vec![];
+    for (k, w) in d.iter().enumerate() {
+        if *w == 0 {
+            out.push(format!("word{k}-zero"));
+        }
+        if *w == u32::MAX {
+            out.push(format!("word{k}-ones"));
+        }
+    }
+    let neg = d[0] >> 31 == 1;
+    if neg && d[4] == 0 {
+        out.push("negative-low-word-zero".into());
+    }
+    if neg && d[4] & 0x00FF_FFFF == 0 {
+        out.push("negative-low-3-bytes-zero".into());
+    }
+    if d[0] == 0x8000_0000 {
+        out.push("word0-min".into());
+    }
+    if d[0] == 0x7FFF_FFFF {
+        out.push("word0-max".into());
+    }
+    let lz = d[0].leading_zeros() / 4;
+    let lo = d[0].leading_ones() / 4;
+    if (5..8).contains(&lz) {
+        out.push(format!("lead-zero-nibbles-{lz}"));
+    }
+    if (5..8).contains(&lo) {
+        out.push(format!("lead-f-nibbles-{lo}"));
+    }
+    out
+}
+
+/// `enumk C11-find-shapes <log2 n>`: searches the 16-byte big-endian counters 0..2^n (server id and key
+/// empty) with the harness's own SHA-1 for inputs whose digest has one of the rare shapes and prints up
+/// to 3 witnesses per class as JSON lines. The committed table `c11_shapes.jsonl` was produced this way;
+/// the check never trusts it: it recomputes every witness's digest and shape with the reference first.
+pub fn find_shapes(log2n: u32) {
+    use std::collections::BTreeMap;
+    let n: u64 = 1 << log2n;
+    let chunks = 4096usize;
+    let found: std::sync::Mutex<BTreeMap<String, Vec<u64>>> = Default::default();
+    par_for(chunks, |c| {
+        let lo = n / chunks as u64 * c as u64;
+        let hi = lo + n / chunks as u64;
+        for i in lo..hi {
+            let d = sha1_16([0, 0, (i >> 32) as u32, i as u32]);
+            // cheap pre-filter: some word is 0 / all ones, or >= 5 leading equal nibbles, or 3 low zero bytes
+            let rare = d.iter().any(|w| *w == 0 || *w == u32::MAX) || d[0] >> 12 == 0 || d[0] >> 12 == 0xFFFFF || d[4] & 0x00FF_FFFF == 0 || d[0] == 0x8000_0000 || d[0] == 0x7FFF_FFFF;
+            if rare {
+                let cls = shape_classes(&d);
+                if !cls.is_empty() {
+                    let mut f = found.lock().unwrap();
+                    for cl in cls {
+                        let v = f.entry(cl).or_default();
+                        if v.len() < 3 {
+                            v.push(i);
+                        }
+                    }
+                }
+            }
+        }
+    });
+    for (cl, v) in found.lock().unwrap().iter() {
+        for i in v {
+            let secret = (*i as u128).to_be_bytes();
+            println!("{}", json!({"class": cl, "secret_hex": hex(&secret), "digest_hex": hex(&sha1(&secret))}));
+        }
+    }
+}
+
+const SHAPES: &str = include_str!("c11_shapes.jsonl");
+
+/// Compares the implementation with the reference on the committed witnesses of rare digest shapes.
+fn shape_witnesses(rep: &Report, classes: &[AtomicU64; 7]) -> std::collections::BTreeMap<String, u64> {
+    let mut per_class = std::collections::BTreeMap::new();
+    for line in SHAPES.lines().filter(|l| !l.trim().is_empty()) {
+        let j: serde_json::Value = serde_json::from_str(line).unwrap_or_else(|_| common::machinery("c11_shapes.jsonl: malformed line"));
+        let secret = common::unhex(j["secret_hex"].as_str().unwrap_or(""));
+        let class = j["class"].as_str().unwrap_or("").to_string();
+        let d = sha1(&secret);
+        let words: [u32; 5] = std::array::from_fn(|k| u32::from_be_bytes([d[4 * k], d[4 * k + 1], d[4 * k + 2], d[4 * k + 3]]));
+        if !shape_classes(&words).contains(&class) {
+            common::machinery(&format!("c11_shapes.jsonl: witness {} does not have shape {class} under the reference SHA-1", hex(&secret)));
+        }
+        *per_class.entry(class).or_insert(0u64) += 1;
+        check(rep, "", &secret, &[], classes);
+    }
+    per_class
 }
 
 pub fn run(cli: Cli) -> ! {
@@ -135,7 +266,12 @@ pub fn core(rep: &Report, thorough: bool) {
     let der: Vec<u8> = (0..162u32).map(|i| (i * 7 + 3) as u8).collect();
     let keys: Vec<Vec<u8>> = vec![vec![], vec![0x30], der];
     let long300 = "s".repeat(300);
-    let sids: [&str; 9] = ["", "a", "justchunks", "exactly-twenty-chars", "twenty-one-characters", "mc.some-rather-long-host-name.example.org", "sérvér-😀", &long300, "exactly-twenty-charsX"];
+    // the last twelve: leading / trailing / only white space, letter case, NUL, and two spellings of one
+    // accented letter - the server id is hashed byte for byte
+    let sids: [&str; 21] = [
+        "", "a", "justchunks", "exactly-twenty-chars", "twenty-one-characters", "mc.some-rather-long-host-name.example.org", "sérvér-😀", &long300,
+        "exactly-twenty-charsX", "lobby", "lobby\n", "lobby\r\n", " lobby", "\tlobby", "lobby ", " ", "lobby\u{a0}", "Lobby", "lob\0by", "lobbe\u{301}", "lobb\u{e9}",
+    ];
     let n: u64 = if thorough { 1 << 20 } else { 1 << 14 };
     let chunks = 256usize;
     par_for(chunks, |c| {
@@ -169,6 +305,12 @@ pub fn core(rep: &Report, thorough: bool) {
         evals.fetch_add(2, Ordering::Relaxed);
     });
 
+    // 3b. committed witnesses of rare digest shapes (found with the reference, re-validated here)
+    let shapes = shape_witnesses(rep, &classes);
+    evals.fetch_add(shapes.values().sum::<u64>(), Ordering::Relaxed);
+    rep.require("rare digest shapes with a witness", shapes.len() as u64, 14);
+    rep.set("rare_digest_shape_witnesses", json!(shapes));
+
     // 4. a third, unrelated reference: Python's hashlib and big-integer arithmetic on 2 000 of the inputs
     let py_checked = python_cross_check(rep, &sids, &keys, seed);
     rep.set("python_hashlib_cross_checked", json!(py_checked));
@@ -184,7 +326,7 @@ pub fn core(rep: &Report, thorough: bool) {
     rep.set("distinct_nontrivial", json!(cl[1] + cl[3] + cl[4] + cl[5] + cl[6]));
     rep.set(
         "rule",
-        json!("published vectors split over (server id, secret, key) in every way; 16-byte big-endian counter secrets x 9 server ids (empty, short, 20/21/41 characters, non-ASCII, 300 characters, two sharing a 20-character prefix) x 3 key encodings; every secret of length <= 2. Non-trivial = digest negative or with at least one leading zero nibble (the cases where unsigned/zero-padded printing differs)."),
+        json!("published vectors split over (server id, secret, key) in every way; 16-byte big-endian counter secrets x 21 server ids (empty, short, 20/21/41 characters, non-ASCII, 300 characters, two sharing a 20-character prefix, leading / trailing / only white space, letter case, NUL, composed and decomposed accent) x 3 key encodings; every secret of length <= 2; committed witnesses (found by a 2^35 search with the reference SHA-1, re-validated on every run) of digests with a whole 32-bit word zero or all ones at each of the five positions, 5-7 leading zero or F nibbles, and negative digests whose low word or low three bytes are zero. Non-trivial = digest negative or with at least one leading zero nibble (the cases where unsigned/zero-padded printing differs)."),
     );
     rep.set("digest_classes", json!(names.iter().zip(cl.iter()).map(|(a, b)| (a.to_string(), *b)).collect::<std::collections::BTreeMap<_, _>>()));
     rep.set("exhaustive", json!(true));
